@@ -202,6 +202,9 @@ class TableauMonitor:
         if isinstance(exc, (KeyboardInterrupt, SystemExit)):
             return
         self.count("tableau:raised:" + name)
+        if "snap" in ent and ent["snap"].problems():
+            self.count("tableau:garbage_in")
+            return
         args = ent.get("args", ())
         n = ent["snap"].n if "snap" in ent else None
         in_range = True
@@ -209,7 +212,7 @@ class TableauMonitor:
             for a in args[:2]:
                 if isinstance(a, int) and not (0 <= a <= n):
                     in_range = False
-        if name in ("cnot_gate", "control_z_gate", "control_y_gate", "swap_gate") and len(args) >= 2 and args[0] == args[1]:
+        if name in ("cnot_gate", "control_z_gate", "control_y_gate") and len(args) >= 2 and args[0] == args[1]:
             in_range = False
         if in_range:
             self._viol(name, ent, "tableau_op_raises", {"exception": f"{type(exc).__name__}: {exc}"[:300]})
@@ -253,15 +256,19 @@ class TableauMonitor:
                                                               "parts": [s.to_json() for s in ent["snaps"] if s.n <= 6]})
             return
         before = ent["snap"]
+        if before.problems():
+            self.count("tableau:garbage_in")
+            return  # garbage in: nothing is promised (e.g. a benchmark helper that overwrites only the stabilizer half)
+        args = ent["args"]
+        if name in ("cnot_gate", "control_z_gate", "control_y_gate") and len(args) >= 2 and args[0] == args[1]:
+            self.count("tableau:undefined_arguments")
+            return  # a two-qubit gate of a qubit with itself denotes nothing: the caller that asked for it is judged instead
         tab_after = self._after(ret, ent)
         after = Snap(tab_after)
-        args = ent["args"]
         probs = after.problems()
         if probs:
             self._viol(name, ent, "tableau_invalid", {"problems": probs, "after": after.to_json() if after.n <= 12 else {"n": after.n}})
             return
-        if before.problems():
-            return  # garbage in: nothing is promised
         G = before.group()
         got = after.group()
 
